@@ -713,21 +713,45 @@ fn check_adjoint<G: GraphLike>(family: &'static str, index: u64, bk: &str, d: &D
     }
 }
 
-/// `copy` / `subgraph_from_vertices`: vertex data and edges under the order-preserving
-/// renaming onto 0..k (the k-th listed vertex becomes vertex k of a fresh graph).
+/// `copy` / `subgraph_from_vertices`: vertex data and edges under the renaming recovered from
+/// unique tags (which ids the new vertices get is the backend's business; C09 checks the
+/// documented "consecutive indices" of `copy`).
 fn check_copy_helpers<G: GraphLike>(family: &'static str, index: u64, bk: &str, d: &DDesc, scr: Option<u64>, r: &mut Rng) {
     let c = ctx();
-    let (g, _) = d.build::<G>(scr);
+    let (mut g, _) = d.build::<G>(scr);
+    // every vertex gets a unique tag in its (cosmetic) row coordinate: the copy is matched to
+    // the original through the tags, whatever ids the backend gives the new vertices
+    {
+        let vs: Vec<V> = g.vertices().collect();
+        for (k, v) in vs.into_iter().enumerate() {
+            g.set_row(v, 1000.0 + k as f64);
+        }
+    }
     let detail = |op: &str, what: &str, extra: Value| json!({"op": op, "what": what, "backend": bk, "diagram": d.to_json(), "scramble": scr, "extra": extra});
     let structure_ok = |res: &G, verts: &[V], negate: bool| -> Result<(), String> {
         let k = verts.len();
-        let mut rv: Vec<V> = res.vertices().collect();
-        rv.sort();
-        if rv != (0..k).collect::<Vec<V>>() {
-            return Err(format!("vertex ids {rv:?} are not 0..{k}"));
+        if res.num_vertices() != k {
+            return Err(format!("{} vertices, expected {k}", res.num_vertices()));
         }
-        let pos: BTreeMap<V, V> = verts.iter().enumerate().map(|(i, &v)| (v, i)).collect();
-        for (i, &v) in verts.iter().enumerate() {
+        // tag -> vertex of the result
+        let mut by_tag: BTreeMap<i64, V> = BTreeMap::new();
+        for w in res.vertices() {
+            if by_tag.insert(res.row(w) as i64, w).is_some() {
+                return Err("two result vertices carry the same tag".into());
+            }
+        }
+        let mut image: BTreeMap<V, V> = BTreeMap::new();
+        for &v in verts {
+            match by_tag.get(&(g.row(v) as i64)) {
+                Some(&w) => {
+                    image.insert(v, w);
+                }
+                None => return Err(format!("vertex {v} has no counterpart in the result")),
+            }
+        }
+        let pos: BTreeMap<V, V> = image.clone();
+        for &v in verts {
+            let i = image[&v];
             let ph = if negate { -g.phase(v) } else { g.phase(v) };
             if res.vertex_type(i) != g.vertex_type(v) || res.phase(i) != ph {
                 return Err(format!("vertex {v} -> {i}: type/phase differ"));
